@@ -694,6 +694,17 @@ _process_request_(struct qb_ipcs_connection *c, int32_t ms_timeout)
 			    c->description);
 		res = -ESHUTDOWN;
 		goto cleanup;
+	} else if (size < (ssize_t)sizeof(struct qb_ipc_request_header) ||
+		   hdr->size < 0 || hdr->size > size ||
+		   (size_t)hdr->size > c->request.max_msg_size) {
+		/*
+		 * The length field is written by the sender: never report
+		 * more than was received or than was negotiated.
+		 */
+		qb_util_log(LOG_ERR, "malformed request header, size %d of %zd (%s)",
+			    hdr->size, size, c->description);
+		res = -EINVAL;
+		goto cleanup;
 	} else {
 		c->stats.requests++;
 		res = c->service->serv_fns.msg_process(c, hdr, hdr->size);
